@@ -205,6 +205,7 @@ type harnessEvidence struct {
 	PathEnds    map[string]int `json:"path_ends"`
 	Obligations int            `json:"obligations"`
 	Discharged  int            `json:"discharged"`
+	Trivial     int            `json:"discharged_without_solver"`
 	Unknown     int            `json:"unknown"`
 	Assertions  map[string]int `json:"assertions_checked"`
 	Reached     map[string]int `json:"reach_witnesses"`
@@ -235,7 +236,7 @@ func report(eng *Engine, prop, tier string, seed int, decls []*HarnessDecl, runs
 	for i, h := range runs {
 		d := decls[i]
 		he := harnessEvidence{Name: h.Name, Doc: d.Doc, Bounds: d.KV, Paths: h.Paths, PathEnds: h.PathsEnded,
-			Obligations: h.Obligations, Discharged: h.Discharged, Unknown: h.Unknown, Assertions: h.Asserted, Reached: h.Reached,
+			Obligations: h.Obligations, Discharged: h.Discharged, Trivial: h.Trivial, Unknown: h.Unknown, Assertions: h.Asserted, Reached: h.Reached,
 			Queries: h.Queries, SolverS: h.SolverTime.Seconds(), WallS: h.Wall.Seconds(), Instrs: h.Instrs, Truncated: h.Truncated}
 		totalPaths += h.Paths
 		totalObl += h.Obligations
